@@ -1506,9 +1506,9 @@ func runC19(c *Ctx) {
 	}
 	c19RunFiles(c, gens, func() string { freshN++; return fmt.Sprintf("ZZ_NEW%d", freshN) })
 	if c.Drv != nil && os.Getenv("C19_ONLY_CORPUS") == "" {
-		nx := 150
+		nx := 120
 		if c.Thorough {
-			nx = 1500
+			nx = 400
 		}
 		c19GraphExtra(c, nx)
 	}
